@@ -26,9 +26,18 @@ class DStub:
     """what the model functions read from a Date: change_scale(scale).julian_century / .d / .jd, .eop.*, .J2000"""
     J2000 = 2451545.0
 
-    def __init__(self, scales, eop=None):
+    def __init__(self, scales, eop=None, own=None):
         self.scales = scales
-        self.eop = types.SimpleNamespace(**(eop or {}))
+        # readings of the date on its *own* clock (date.jd, date.d, date.julian_century ...) and the EOP entries a model
+        # function has no business with are independent free values: code that reads them instead of the UT1 / TT reading
+        # it is specified on gives a result that depends on them
+        own = own or {}
+        e = {k: own[k] for k in ("ut1_utc", "tai_utc", "lod") if k in own}
+        e.update(eop or {})
+        self.eop = types.SimpleNamespace(**e)
+        for k in ("jd", "mjd", "d", "s", "julian_century"):
+            if k in own:
+                setattr(self, k, own[k])
         self.n = next(_ids)
 
     def change_scale(self, name):
@@ -36,6 +45,15 @@ class DStub:
 
     def __repr__(self):            # memoize() keys on str(args)
         return "DStub%d" % self.n
+
+
+OWN_INS = [("own_jd", "real"), ("own_T", "real"), ("own_d", "real"), ("own_s", "real"), ("own_dut", "real"), ("own_dat", "real"),
+           ("own_lod", "real")]
+
+
+def _own(v):
+    return {"jd": v["own_jd"], "mjd": v["own_jd"] - 2400000.5, "d": v["own_d"], "s": v["own_s"], "julian_century": v["own_T"], "ut1_utc": v["own_dut"], "tai_utc": v["own_dat"],
+            "lod": v["own_lod"]}
 
 
 def _mod(env, name):
@@ -102,11 +120,11 @@ def header_poly(fname):
 
 # =============================================================================================================== IAU 1980
 def poly80_case():
-    ins = [("T", "real"), ("Tu", "real"), ("lon", "real")]
+    ins = [("T", "real"), ("Tu", "real"), ("lon", "real")] + OWN_INS
 
     def run(env, v):
         iau = _mod(env, "beyond.frames.iau1980")
-        d = DStub({"TT": {"julian_century": v["T"]}, "UT1": {"julian_century": v["Tu"]}})
+        d = DStub({"TT": {"julian_century": v["T"]}, "UT1": {"julian_century": v["Tu"]}}, own=_own(v))
         saved = {"_tab": iau._tab}
         iau._tab = lambda n=None: []
         try:
@@ -131,7 +149,7 @@ def poly80_case():
 def nutation_series_case(rows):
     """the 1980 series with a table of `rows` symbolic rows: arguments = integer combinations of the five transcribed Delaunay
     polynomials, amplitudes in 0.1 mas with secular parts, EOP corrections in mas"""
-    ins = [("T", "real"), ("dpsi", "real"), ("deps", "real")]
+    ins = [("T", "real"), ("dpsi", "real"), ("deps", "real")] + OWN_INS
     for i in range(rows):
         ins += [(f"a{i}{j}", "int") for j in range(5)] + [(f"{k}{i}", "real") for k in "ABCD"]
 
@@ -140,7 +158,7 @@ def nutation_series_case(rows):
 
     def run(env, v):
         iau = _mod(env, "beyond.frames.iau1980")
-        d = DStub({"TT": {"julian_century": v["T"]}}, eop={"dpsi": v["dpsi"], "deps": v["deps"]})
+        d = DStub({"TT": {"julian_century": v["T"]}}, eop={"dpsi": v["dpsi"], "deps": v["deps"]}, own=_own(v))
         saved = {"_tab": iau._tab}
         iau._tab = lambda n=None: table(v)
         try:
@@ -166,11 +184,11 @@ def nutation_series_case(rows):
 
 
 def equinox_case():
-    ins = [("T", "real"), ("day", "int"), ("eb", "real"), ("dpsi", "real")]
+    ins = [("T", "real"), ("day", "int"), ("eb", "real"), ("dpsi", "real")] + OWN_INS
 
     def run(env, v):
         iau = _mod(env, "beyond.frames.iau1980")
-        d = DStub({"TT": {"julian_century": v["T"]}, "UTC": {"d": v["day"]}})
+        d = DStub({"TT": {"julian_century": v["T"]}, "UTC": {"d": v["day"]}}, own=_own(v))
         saved = {"_nutation": iau._nutation}
         iau._nutation = lambda date, eop_correction=True, terms=106: (v["eb"], v["dpsi"], 0)
         try:
@@ -195,11 +213,11 @@ def equinox_case():
 
 
 def gast_case():
-    ins = [("Tu", "real"), ("eq", "real"), ("lon", "real")]
+    ins = [("Tu", "real"), ("eq", "real"), ("lon", "real")] + OWN_INS
 
     def run(env, v):
         iau = _mod(env, "beyond.frames.iau1980")
-        d = DStub({"UT1": {"julian_century": v["Tu"]}})
+        d = DStub({"UT1": {"julian_century": v["Tu"]}}, own=_own(v))
         saved = {"equinox": iau.equinox}
         seen = []
 
@@ -271,11 +289,11 @@ def matrices80_case():
 
 # =============================================================================================================== IAU 2010
 def poly2010_case():
-    ins = [("T", "real"), ("jd", "real"), ("x", "real"), ("y", "real")]
+    ins = [("T", "real"), ("jd", "real"), ("x", "real"), ("y", "real")] + OWN_INS
 
     def run(env, v):
         iau = _mod(env, "beyond.frames.iau2010")
-        d = DStub({"TT": {"julian_century": v["T"]}, "UT1": {"jd": v["jd"]}}, eop={"x": v["x"], "y": v["y"]})
+        d = DStub({"TT": {"julian_century": v["T"]}, "UT1": {"jd": v["jd"]}}, eop={"x": v["x"], "y": v["y"]}, own=_own(v))
         era = iau._sideral(d)
         xp, yp, sp = iau._earth_orientation(d)
         pl = iau._planets(d)
@@ -322,7 +340,7 @@ def _pre_rad(env, x):
 
 def series2010_case():
     """X, Y, s+XY/2 with small symbolic tables: one row at j = 0 and one at j = 1 for each of the three quantities"""
-    ins = [("T", "real")]
+    ins = [("T", "real")] + OWN_INS
     for q in "xys":
         for j in (0, 1):
             ins += [(f"{q}{j}s", "real"), (f"{q}{j}c", "real")] + [(f"{q}{j}n{k}", "int") for k in range(14)]
@@ -338,7 +356,7 @@ def series2010_case():
 
     def run(env, v):
         iau = _mod(env, "beyond.frames.iau2010")
-        d = DStub({"TT": {"julian_century": v["T"]}})
+        d = DStub({"TT": {"julian_century": v["T"]}}, own=_own(v))
         saved = {"_tab": iau._tab, "_planets": iau._planets}
         pl = [v_ for v_ in planets_syms(env, v)]
         iau._tab = lambda: tabs(v)
@@ -372,11 +390,11 @@ def series2010_case():
 
 
 def xys_case():
-    ins = [("X", "real"), ("Y", "real"), ("S", "real"), ("dx", "real"), ("dy", "real")]
+    ins = [("X", "real"), ("Y", "real"), ("S", "real"), ("dx", "real"), ("dy", "real")] + OWN_INS
 
     def run(env, v):
         iau = _mod(env, "beyond.frames.iau2010")
-        d = DStub({}, eop={"dx": v["dx"], "dy": v["dy"]})
+        d = DStub({}, eop={"dx": v["dx"], "dy": v["dy"]}, own=_own(v))
         saved = {"_xysxy2": iau._xysxy2}
         iau._xysxy2 = lambda date: (v["X"], v["Y"], v["S"])
         try:
